@@ -177,6 +177,8 @@ def ref_masks(o, per, F, tie_masked=None):
                 if x <= 0:
                     b[i] = Fraction(0)
                     continue
+                if x == 1.0 and lc == 0.0:
+                    continue        # exact in floats too (log 1 = 0, exp 0 = 1): strict "<" does not mask
                 if abs(math.log(x) - lc) < 1e-9:
                     ties.append(i)
                     if tie_masked is not None:
